@@ -43,7 +43,8 @@ def builtin_cases(ctx):
                 for d in (1, 2, 3, 6):
                     rng(a, max(MIN, min(MAX, a + s * d)), s)
     # conversions over the annotated value pool of C06 plus a few more
-    vals = c06.pool(ctx) + [c06.S(x) for x in ("3.99", "-2.5", "1e3", "abc", "12abc", "  7", "0x1f", "+5", "1_000")] + [c06.F(x) for x in (3.99, -2.5, 1e15, -0.0, 123456.789)]
+    vals = c06.pool(ctx) + [c06.S(x) for x in ("3.99", "-2.5", "1e3", "abc", "12abc", "  7", "0x1f", "+5", "1_000",
+                                                  "9007199254740993", "-9007199254740993", "9223372036854775807", "-9223372036854775808", "9223372036854775806", "4611686018427387905", "123456789012345678", "1000000000000000001")] + [c06.F(x) for x in (3.99, -2.5, 1e15, -0.0, 123456.789)]
     for i, v in enumerate(vals):
         if v["t"] == "flt" and (v["nan"] or abs(struct.unpack("<d", bytes(v["l"]))[0]) > 9e18):
             continue         # NaN / out-of-range float to int: implementation-defined in Go
